@@ -636,14 +636,14 @@ def _describe(rec):
     return s[:600]
 
 
-def validate(ctx, records, tag, chunks_n=12):
+def validate(ctx, records, tag, chunk=3500):
     import concurrent.futures as cf
 
     for n, r in enumerate(records):
         r["id"] = n
     slim = [{k: v for k, v in r.items() if k not in ("gen", "chain", "explicit")} for r in records]
-    n = max(1, min(chunks_n, len(slim) // 200 or 1))
-    chunks = [slim[k::n] for k in range(n)]
+    n = max(1, min(12, len(slim) // 200 or 1), -(-len(slim) // chunk))
+    chunks = [slim[k::n] for k in range(n)]  # interleaved: costly records spread evenly
     rejects = []
 
     def one(args):
@@ -679,6 +679,7 @@ B_NONE = ((3,), (), "")  # no edge at all
 B_FLAT = ((2, 2, 1), ((3, 2), (13, 2)), "")
 B_TIE3 = ((3, 1, 2), ((2, 2), (10, 2), (40, 2)), "")
 B_WIDE = ((1, 2), ((201, 2),), "")
+B_BIG = ((8, 1, 4, 2), ((9, 2), (41, 2), (101, 2)), "")  # thorough: sub sizes up to 8
 
 
 def _scheme_bs(names):
@@ -703,7 +704,7 @@ def r_families(quick):
             fams.append((h, w, {g}, set(SCHEME_CENTRES[:8]), set(sch)))
     else:
         cls = (CL_NONE, CL_ORIGIN, CL_OFF, CL_OUT, CL_TWO, CL_THREE, CL_DUP, CL_OUT2)
-        bs = (B_DEC, B_TIE, B_UNORD, B_NONE, B_FLAT, B_TIE3, B_WIDE)
+        bs = (B_DEC, B_TIE, B_UNORD, B_NONE, B_FLAT, B_TIE3, B_WIDE, B_BIG)
         for h, w in small + [(1, 4), (4, 1)]:
             fams.append((h, w, {GA, GB, GC}, set(cls), set(bs)))
         fams.append((3, 3, {GA, GC}, set(cls), set(bs)))
@@ -721,7 +722,7 @@ def a_families(quick):
                 (3, {-2, 0, 1, 6}, {1, 2}, cuts, pairs)]
     cuts = cuts | {(-1, 1), (7, 4)}
     return [(1, {-2, 0, 1, 2, 3, 6}, {1, 2, 3}, cuts, pairs), (2, {-2, 0, 1, 2, 3, 6}, {1, 2, 3}, cuts, pairs),
-            (3, {-2, 0, 1, 2, 3, 6}, {1, 2}, cuts, pairs), (4, {-2, 0, 1, 3, 6}, {1, 2}, cuts, pairs)]
+            (3, {-2, 0, 1, 2, 3, 6}, {1, 2}, cuts, pairs), (4, {-2, 0, 1, 6}, {1, 2}, cuts, pairs)]
 
 
 P0, P1, P2 = (1, 1, 0, 0), (1, 2, 2, -6), (3, 1, -10, 4)  # (my, mx, oy, ox)
